@@ -295,10 +295,10 @@ fn run_case(plan: &Plan, h: &History, case: usize, origin: &str, sh: &Shared) {
     if plan.binary_every > 0 && case % plan.binary_every == 0 && crate::net::server_bin().is_some() {
         let ids: std::collections::HashSet<Uuid> = (0..h.n_clients).map(|c| crate::e1::client_uuid(h.seed, c)).collect();
         binary_idx = Some(subjects.len());
-        subjects.push((Kind { backend: Backend::Sqlite, entry: Entry::Http, reopen_pct: 8, socket: true, peers: false }, Some(ids)));
+        subjects.push((Kind { backend: Backend::Sqlite, entry: Entry::Http, reopen_pct: 8, socket: true, peers: (case / plan.binary_every) % 2 == 1 }, Some(ids)));
     }
     for (si, (kind, allow)) in subjects.iter().enumerate() {
-        let made = if Some(si) == binary_idx { Subject::with_binary(config, allow.clone(), 8) } else { Subject::with(*kind, config, allow.clone(), None) };
+        let made = if Some(si) == binary_idx { Subject::with_binary_peers(config, allow.clone(), 8, kind.peers) } else { Subject::with(*kind, config, allow.clone(), None) };
         let mut subj = match made {
             Ok(s) => s,
             Err(e) => {
